@@ -257,15 +257,18 @@ Definition dw : wspec := mkWs false Sha256 [] [] 0.
 Definition coll_free (ws : list wspec) : Prop :=
   forall x y, In x ws -> In y ws -> ws_rm x = false -> ws_rm y = false -> x_cp x = x_cp y -> ws_data x = ws_data y.
 
-Definition PInvW (ws : list wspec) (f0 : fs) (s : pool (res integrity) * fs) : Prop :=
+(* [done]: the threads that have appended their record, in the order of their append steps (ghost) *)
+Definition PInvWd (ws : list wspec) (f0 : fs) (done : list nat) (s : pool (res integrity) * fs) : Prop :=
   let '(pl, f) := s in
-  exists (done : list nat) (owns : list (option name)),
+  exists (owns : list (option name)),
     NoDup done /\ (forall i, In i done -> (i < List.length ws)%nat) /\
     List.length pl = List.length ws /\ List.length owns = List.length ws /\
     (forall i, (i < List.length ws)%nat -> wst (nth i ws dw) f (nth i pl (Ret Stuck)) (member i done) (nth i owns None)) /\
     (forall i j a b, i <> j -> nth i owns None = Some a -> nth j owns None = Some b -> a <> b) /\
     IndexInv f /\ ContentShape f /\ TmpShape f /\
     (forall b, bshape b -> bucket_at f b = bucket_at f0 b ++ bucket_of hash (hist_records hash (hops_of (map x_hop ws) done) b)).
+
+Definition PInvW (ws : list wspec) (f0 : fs) (s : pool (res integrity) * fs) : Prop := exists done, PInvWd ws f0 done s.
 
 Lemma wst_own_exists x f p fl n : wst x f p fl (Some n) -> lookup f (x_tmp n) <> None.
 Proof. intros H. inversion H; subst; congruence. Qed.
@@ -308,9 +311,9 @@ Proof.
   destruct (lookup f (InCache (y :: q))) as [[d| |t]|]; try discriminate. congruence.
 Qed.
 
-Lemma PInvW_init ws f0 : CacheInv f0 -> PInvW ws f0 (map wprog ws, f0).
+Lemma PInvWd_init ws f0 : CacheInv f0 -> PInvWd ws f0 [] (map wprog ws, f0).
 Proof.
-  intros [Hi [Hc Ht]]. exists [], (repeat None (List.length ws)).
+  intros [Hi [Hc Ht]]. exists (repeat None (List.length ws)).
   split; [constructor|]. split; [intros i []|]. split; [apply map_length|]. split; [apply repeat_length|].
   split; [|split; [|split; [exact Hi|split; [exact Hc|split; [exact Ht|]]]]].
   - intros i Hi'. cbn [member existsb]. rewrite (nth_indep _ (Ret Stuck) (wprog dw)) by (rewrite map_length; exact Hi').
@@ -321,12 +324,16 @@ Proof.
   - intros b _. cbn [hops_of map hist_records]. unfold bucket_of. cbn. rewrite app_nil_r. reflexivity.
 Qed.
 
-Lemma PInvW_step ws f0 s s' :
+Lemma PInvW_init ws f0 : CacheInv f0 -> PInvW ws f0 (map wprog ws, f0).
+Proof. intros H. exists []. exact (PInvWd_init ws f0 H). Qed.
+
+(* one step keeps the invariant; the ghost order grows at the end, by the stepping thread when the step is its append *)
+Lemma PInvWd_step ws f0 done s s' :
   coll_free ws -> Forall (fun x => wf_rec hash (hop_rec (x_hop x))) ws ->
-  PInvW ws f0 s -> pstep s s' -> PInvW ws f0 s'.
+  PInvWd ws f0 done s -> pstep s s' -> exists ext, PInvWd ws f0 (done ++ ext) s'.
 Proof.
   intros Hcf Hwf Hinv Hstep. inversion Hstep as [pre c k post f E1 E2]. subst s s'. clear Hstep.
-  destruct Hinv as [done [owns [Hnd [Hlt [Hlen [Hlo [Hst [Hdist [Hi [Hc [Ht Hb]]]]]]]]]]].
+  destruct Hinv as [owns [Hnd [Hlt [Hlen [Hlo [Hst [Hdist [Hi [Hc [Ht Hb]]]]]]]]]].
   set (i0 := List.length pre).
   assert (i0 < List.length ws)%nat as Hi0 by (rewrite <- Hlen, app_length; cbn [List.length]; lia).
   set (x := nth i0 ws dw).
@@ -341,9 +348,9 @@ Proof.
             (forall j a b, j <> i0 -> own' = Some a -> nth j owns None = Some b -> a <> b) ->
             IndexInv f' -> ContentShape f' -> TmpShape f' ->
             (forall b, bshape b -> bucket_at f' b = bucket_at f0 b ++ bucket_of hash (hist_records hash (hops_of (map x_hop ws) done') b)) ->
-            PInvW ws f0 (pre ++ p' :: post, f')) as Hre.
+            PInvWd ws f0 done' (pre ++ p' :: post, f')) as Hre.
   { intros p' f' done' own' Hnd' Hlt' Hmem Hnew Hstab Hd' Hi' Hc' Ht' Hb'.
-    exists done', (set_nth i0 own' owns).
+    exists (set_nth i0 own' owns).
     split; [exact Hnd'|]. split; [exact Hlt'|]. split; [rewrite <- Hlen, !app_length; reflexivity|]. split; [rewrite set_nth_length; exact Hlo|].
     split; [|split; [|split; [exact Hi'|split; [exact Hc'|split; [exact Ht'|exact Hb']]]]].
     - intros i Hi'0. destruct (Nat.eq_dec i i0) as [->|Hne].
@@ -368,7 +375,7 @@ Proof.
     destruct (do_eq c k (A0 x) _ (eq_sym Ep0) (A0_head x)) as [-> Hk].
     destruct (s_mktmp f Ht) as [Hr [Hdir [Hfr Hag]]].
     rewrite (Hk _), Hr. change (nxt (A0 x) ROk) with (A1 x).
-    apply (Hre (A1 x) _ done None); try assumption; try reflexivity.
+    exists []; rewrite app_nil_r; apply (Hre (A1 x) _ done None); try assumption; try reflexivity.
     + rewrite <- Efl. apply W1; [exact Hw|exact Hdir].
     + intros i Hi' Hne. apply (stable_agree []); [exact Hag| | | |]; try (intros; contradiction).
       * intros p _ _ [].
@@ -397,12 +404,12 @@ Proof.
     destruct (ws_data x) as [|b0 d0] eqn:Edata.
     + (* no data: the commit starts right away *)
       rewrite (A2_empty x n Edata), B0_B0'.
-      apply (Hre (B0' x n) _ done (Some n)); try assumption; try reflexivity.
+      exists []; rewrite app_nil_r; apply (Hre (B0' x n) _ done (Some n)); try assumption; try reflexivity.
       * rewrite <- Efl. apply W3; [exact Hw|rewrite Edata; apply lookup_update_eq].
       * intros i Hi' Hne. apply Hstab. intros m Hm. apply (Hownex i m Hi' Hm).
       * intros j a b Hj Ha Hjb. inversion Ha; subst a. intros <-. apply (Hownex j n (Hownin j n Hjb) Hjb). exact Hfresh.
       * intros b Hbs. rewrite (HB2 b Hbs). apply Hb. exact Hbs.
-    + apply (Hre (A2 x n) _ done (Some n)); try assumption; try reflexivity.
+    + exists []; rewrite app_nil_r; apply (Hre (A2 x n) _ done (Some n)); try assumption; try reflexivity.
       * rewrite <- Efl. apply W2; [exact Hw|apply lookup_update_eq|rewrite Edata; discriminate].
       * intros i Hi' Hne. apply Hstab. intros m Hm. apply (Hownex i m Hi' Hm).
       * intros j a b Hj Ha Hjb. inversion Ha; subst a. intros <-. apply (Hownex j n (Hownin j n Hjb) Hjb). exact Hfresh.
@@ -413,7 +420,7 @@ Proof.
     rewrite (Hk _), (exec_writeappend f _ [] _ Hl). cbn [fst snd app]. rewrite Hn2, B0_B0'.
     set (g := update f (x_tmp n) (File (ws_data x))).
     assert (forall l, l <> x_tmp n -> lookup g l = lookup f l) as Hfr by (intros l H; apply lookup_update_neq; congruence).
-    apply (Hre (B0' x n) g done (Some n)); try assumption; try reflexivity.
+    exists []; rewrite app_nil_r; apply (Hre (B0' x n) g done (Some n)); try assumption; try reflexivity.
     + rewrite <- Efl. apply W3; [exact Hw|apply lookup_update_eq].
     + intros i Hi' Hnei. apply (stable_agree [x_tmp n]); [apply agree_update| | | |].
       * intros p Hp Hnp [E|[]]. exact (not_dir_of_file f _ _ Hl p Hp Hnp (eq_sym E)).
@@ -431,7 +438,7 @@ Proof.
     destruct (s_mkcontent f (ws_a x) (ws_data x) Hc) as [Hr [Hdir [Hc' [Hfr Hag]]]]. fold (x_cp x) in Hr, Hdir, Hc', Hfr, Hag.
     rewrite (Hk _), Hr. change (nxt (B0' x n) ROk) with (B1 x n).
     set (g := snd (exec (MkdirAll (parent (x_cp x))) f)) in *.
-    apply (Hre (B1 x n) g done (Some n)); try assumption; try reflexivity.
+    exists []; rewrite app_nil_r; apply (Hre (B1 x n) g done (Some n)); try assumption; try reflexivity.
     + rewrite <- Efl. apply W4; [exact Hw|rewrite Hfr by apply tmp_loc_not_content; exact Hl|exact Hdir].
     + intros i Hi' Hnei. apply (stable_agree []); [exact Hag| | | |]; try (intros; contradiction).
       * intros p _ _ [].
@@ -449,7 +456,7 @@ Proof.
     set (g := update (remove f (x_tmp n)) (InCache (x_cp x)) (File (ws_data x))).
     assert (forall l, l <> x_tmp n -> l <> InCache (x_cp x) -> lookup g l = lookup f l) as Hfr.
     { intros l H1 H2. unfold g. rewrite lookup_update_neq by congruence. apply lookup_remove_neq. congruence. }
-    apply (Hre (I0 x) g done None); try assumption; try reflexivity.
+    exists []; rewrite app_nil_r; apply (Hre (I0 x) g done None); try assumption; try reflexivity.
     + rewrite <- Efl. apply W5. intros _. apply lookup_update_eq.
     + intros i Hi' Hnei. apply (stable_agree [x_tmp n; InCache (x_cp x)]); [apply agree_rename| | | |].
       * intros p Hp Hnp [E|[E|[]]]; [exact (not_dir_of_file f _ _ Hl p Hp Hnp (eq_sym E))|exact (not_dir_of_notdir f _ Hnd5 p Hp Hnp (eq_sym E))].
@@ -476,7 +483,7 @@ Proof.
     destruct (step_mkdir hash f _ Hi Hbsx) as [Herr [Hi' [Hdir [Hbk _]]]].
     rewrite (Hk1 _ Herr). set (g := snd (exec (MkdirAll (parent (hb hash (x_hop x)))) f)) in *.
     assert (forall l, ~ is_index l -> lookup g l = lookup f l) as Hfr by (intros l H; apply idx_mkdir_frame; assumption).
-    apply (Hre (I1 x) g done None); try assumption; try reflexivity.
+    exists []; rewrite app_nil_r; apply (Hre (I1 x) g done None); try assumption; try reflexivity.
     + rewrite <- Efl. apply W6; [intros Hwx; rewrite Hfr by apply x_cp_not_index; exact (Hcp Hwx)|exact Hdir].
     + intros i Hi'0 Hnei. apply (stable_agree []); [apply agree_exec_mkdir| | | |]; try (intros; contradiction).
       * intros p _ _ [].
@@ -493,7 +500,7 @@ Proof.
     destruct (step_create hash f _ Hi Hbsx Hd) as [Herr [Hi' [[d Hdd] [Hbk _]]]].
     rewrite (Hk1 _ Herr). set (g := snd (exec (CreateIfMissing (InCache (hb hash (x_hop x)))) f)) in *.
     assert (forall l, ~ is_index l -> lookup g l = lookup f l) as Hfr by (intros l H; apply idx_create_frame; assumption).
-    apply (Hre (I2 x) g done None); try assumption; try reflexivity.
+    exists []; rewrite app_nil_r; apply (Hre (I2 x) g done None); try assumption; try reflexivity.
     + rewrite <- Efl. apply (W7 x g d); [intros Hwx; rewrite Hfr by apply x_cp_not_index; exact (Hcp Hwx)|exact Hdd].
     + intros i Hi'0 Hnei. apply (stable_agree []); [apply agree_exec_create| | | |]; try (intros; contradiction).
       * intros p _ _ [].
@@ -512,7 +519,7 @@ Proof.
     rewrite (Hk1 _ Herr). set (g := snd (exec (Append (InCache (hb hash (x_hop x))) (record_bytes hash (hop_rec (x_hop x)))) f)) in *.
     assert (forall l, ~ is_index l -> lookup g l = lookup f l) as Hfr by (intros l H; apply idx_append_frame; assumption).
     assert (~ In i0 done) as Hnotin by (intro Hin; apply member_spec in Hin; congruence).
-    apply (Hre (Ret (Ok (x_res x))) g (done ++ [i0]) None); try assumption.
+    exists [i0]; apply (Hre (Ret (Ok (x_res x))) g (done ++ [i0]) None); try assumption.
     + apply NoDup_snoc; assumption.
     + intros i Hin. apply in_app_or in Hin as [Hin|[<-|[]]]; [apply Hlt; exact Hin|exact Hi0].
     + intros i Hnei. apply member_snoc_other. exact Hnei.
@@ -531,6 +538,21 @@ Proof.
       { rewrite (nth_indep _ dflt (x_hop dw)) by (rewrite map_length; exact Hi0). apply (map_nth x_hop ws dw i0). }
       rewrite hist_records_snoc. unfold bucket_of. rewrite map_app, concat_app, app_assoc. reflexivity.
   - discriminate.
+Qed.
+
+Lemma PInvW_step ws f0 s s' :
+  coll_free ws -> Forall (fun x => wf_rec hash (hop_rec (x_hop x))) ws ->
+  PInvW ws f0 s -> pstep s s' -> PInvW ws f0 s'.
+Proof. intros Hcf Hwf [done Hi] Hs. destruct (PInvWd_step ws f0 done s s' Hcf Hwf Hi Hs) as [ext H]. exists (done ++ ext). exact H. Qed.
+
+Lemma PInvWd_reach ws f0 done s s' :
+  coll_free ws -> Forall (fun x => wf_rec hash (hop_rec (x_hop x))) ws ->
+  PInvWd ws f0 done s -> preach s s' -> exists ext, PInvWd ws f0 (done ++ ext) s'.
+Proof.
+  intros Hcf Hwf Hi Hr. revert done Hi. induction Hr as [s|s1 s2 s3 Hs _ IH]; intros done Hi.
+  - exists []. rewrite app_nil_r. exact Hi.
+  - destruct (PInvWd_step ws f0 done s1 s2 Hcf Hwf Hi Hs) as [e1 H1]. destruct (IH _ H1) as [e2 H2].
+    exists (e1 ++ e2). rewrite app_assoc. exact H2.
 Qed.
 
 Lemma PInvW_reach ws f0 s s' :
